@@ -73,11 +73,11 @@ func CharSpec(t *rapid.T, o CharOpts) oracle.CharSpec {
 	c.Allow = Flags(t, "allow", pn)
 	c.Require = Flags(t, "require", 55)
 	c.Exclude = Flags(t, "exclude", 45)
-	if o.NoHiBits {
-		c.Allow &= 31
-		c.Require &= 31
-		c.Exclude &= 31
-	}
+	// only the five documented class bits: what an undefined bit means is not
+	// specified (an implementation may ignore or refuse it)
+	c.Allow &= 31
+	c.Require &= 31
+	c.Exclude &= 31
 	minAllow := 0
 	if c.Allow&31 == 0 {
 		minAllow = 1
